@@ -1820,6 +1820,17 @@ func main() {
 			last == "return s.commit(rec, false)"
 	}(),
 		"`recoverTable` contains no call of `s.create()`, `newManifest` or `SetMeta`; its only commit is its last statement `return s.commit(rec, false)` (with `s.manifest == nil` that is `newManifest(rec, nv)`: the D33 repair)")
+	o.boolean("batchLenCheckUnsigned", func() bool {
+		t := funcText("leveldb/batch.go", "decodeBatch")
+		return strings.Count(t, "x > uint64(len(data)-o)") == 2 && !strings.Contains(t, "o+int(x) > len(data)")
+	}(),
+		"`decodeBatch` rejects a key or value length with `x > uint64(len(data)-o)` (unsigned, against what is left of the buffer) in both places and nowhere computes `o+int(x)` (the D49 repair; `Model/Batch.decodeRec` compares in ℕ)")
+	o.boolean("batchDecodeClearsOnError", func() bool {
+		return ifBodySeq("leveldb/batch.go", "Batch.decode", "err != nil",
+			[]string{"b.data = nil", "b.index = b.index[:0]", "b.internalLen = 0"}) &&
+			strings.HasSuffix(strings.TrimSpace(strings.TrimSuffix(strings.TrimSpace(funcText("leveldb/batch.go", "Batch.decode")), "}")), "return err")
+	}(),
+		"`Batch.decode` empties the batch (`b.data = nil; b.index = b.index[:0]; b.internalLen = 0`) when decoding failed or the record count is wrong, then returns the error (the D48 repair)")
 	o.boolean("recoverMarksAllFileNums", func() bool {
 		// `all, err := s.stor.List(storage.TypeAll)` … `for _, fd := range all { s.markFileNum(fd.Num) }` before the only
 		// `s.commit(` of recoverTable (the manifest number is allocated inside it)
